@@ -9,6 +9,7 @@ KF == INSTANCE KnownFindings
 Q == INSTANCE Sql
 Sem == INSTANCE Semantics
 RT == INSTANCE RoundTrip
+EJ == INSTANCE ExprJson
 
 CONSTANTS ResFile, VerdictFile, Prop, Shards
 Groups == ndJsonDeserialize(ResFile)
@@ -103,6 +104,10 @@ C12(g) == LET one(c, key, r, tag) == IF key \notin DOMAIN c THEN <<>>
                                      ELSE <<Fail("C12", c, RT!RtVerdict(c[key], r.tree) \o tag)>>
           IN [i \in DOMAIN g.cases |-> one(g.cases[i], "rt", g.cases[i].res, "") \o one(g.cases[i], "rtdf", g.cases[i].resdf, " (default field)")]
 
+CodecConf(c, key, r) == key \notin DOMAIN c \/ c[key].dec # "ok" \/ c[key].tree2 = EJ!RoundTripped(r.tree, c[key].leaves)
+CodecDrift(g) == IF Prop # "C12" THEN 0
+                 ELSE Cardinality({i \in DOMAIN g.cases : ~(CodecConf(g.cases[i], "rt", g.cases[i].res) /\ CodecConf(g.cases[i], "rtdf", g.cases[i].resdf))})
+
 Judge(g) == CASE Prop = "C12" -> C12(g) [] Prop = "C03" -> C03(g) [] Prop = "C04" -> C04(g) [] Prop = "C05" -> C05(g) [] Prop = "C07" -> C07(g) [] Prop = "C09" -> C09(g)
               [] Prop = "C10" -> C10(g) [] Prop = "C11" -> C11(g) [] Prop = "C06" -> C06(g) [] Prop = "C01" -> C01(g)
 
@@ -117,11 +122,11 @@ Relevant(c) == CASE Prop = "C05" -> c.kind \in {"min","paren"} [] Prop = "C07" -
 \* one TLC state per group, so the state count is the number of trees judged
 \* the file is judged in Shards independent behaviours (shard sh takes lines sh+1, sh+1+Shards, ...), which
 \* TLC explores in parallel with -workers
-VARIABLES sh, n, last, fails, kfs, judged, nfail, nkf
-jvars == <<sh, n, last, fails, kfs, judged, nfail, nkf>>
+VARIABLES sh, n, last, fails, kfs, judged, nfail, nkf, ndrift
+jvars == <<sh, n, last, fails, kfs, judged, nfail, nkf, ndrift>>
 Open(f)  == SelectSeq(f, LAMBDA v : v.kf = "none")
 Known(f) == SelectSeq(f, LAMBDA v : v.kf # "none")
-Init == sh \in 0..(Shards - 1) /\ n = sh /\ last = <<>> /\ fails = <<>> /\ kfs = <<>> /\ judged = 0 /\ nfail = 0 /\ nkf = 0
+Init == sh \in 0..(Shards - 1) /\ n = sh /\ last = <<>> /\ fails = <<>> /\ kfs = <<>> /\ judged = 0 /\ nfail = 0 /\ nkf = 0 /\ ndrift = 0
 \* each step judges one line into `last` (evaluated exactly once) and files the previous line's verdicts
 Next == /\ n < Len(Groups) + Shards /\ n' = n + Shards /\ UNCHANGED sh
         /\ last' = IF n < Len(Groups) THEN GroupFails(Groups[n + 1]) ELSE <<>>
@@ -129,8 +134,9 @@ Next == /\ n < Len(Groups) + Shards /\ n' = n + Shards /\ UNCHANGED sh
         /\ kfs' = IF Len(kfs) >= 100 THEN kfs ELSE kfs \o Known(last)
         /\ nfail' = nfail + Len(Open(last)) /\ nkf' = nkf + Len(Known(last))
         /\ judged' = judged + (IF n < Len(Groups) THEN Cardinality({i \in DOMAIN Groups[n + 1].cases : Relevant(Groups[n + 1].cases[i])}) ELSE 0)
+        /\ ndrift' = ndrift + (IF n < Len(Groups) THEN CodecDrift(Groups[n + 1]) ELSE 0)
 Spec == Init /\ [][Next]_jvars
 Report == n >= Len(Groups) + Shards =>
-            /\ PrintT("JUDGED " \o ToJson([prop |-> Prop, shard |-> sh, judged |-> judged, failures |-> nfail, known |-> nkf]))
+            /\ PrintT("JUDGED " \o ToJson([prop |-> Prop, shard |-> sh, judged |-> judged, failures |-> nfail, known |-> nkf, drift |-> ndrift]))
             /\ ndJsonSerialize(VerdictFile \o "." \o ToString(sh), fails \o kfs)
 =======================================================================
